@@ -167,8 +167,8 @@ Proof. exact meta_struct_thm. Qed.
 (* Value preservation for graphs WITHOUT ArrayToVector, Zip, A2B and B2A: TupleGet of
    CreateTuple, NamedTupleGet of CreateNamedTuple and VectorGet (constant U64 index) of
    CreateVector are replaced by the element, a VectorGet on an unknown vector is re-emitted on
-   the mapped operands.  meta_hyps nodes: Constant nodes have the type of their literal, U64
-   scalar literals are below 2^64, none of the four operations occurs, and constructors /
+   the mapped operands.  meta_hyps nodes: Constant nodes have the type of their literal, every node
+   has fewer than 2^64 dependencies (true of any Rust Vec), none of the four operations occurs, and constructors /
    getters carry the type the graph builder gives them (meta_typed). *)
 Theorem C06_meta_sem_partial : forall nodes o p tape vals,
   meta_hyps nodes ->
